@@ -354,6 +354,10 @@ def structBondsLoop (patched deleted : List Nat) : List (Nat × List (Nat × Bon
       | .error e => .error e
       | .ok b' => structBondsLoop patched deleted tl b'
 
+/-- `self._atoms[n]._implicit_hydrogens = h` (own copy, so that this model does not depend on C04's helper names) -/
+def setH (m : Mol) (n : Nat) (h : Option Nat) : Mol :=
+  { m with atoms := m.atoms.map fun p => if p.1 == n then (p.1, { p.2 with implH := h }) else p }
+
 /-- `for n, a in new.atoms(): if a.implicit_hydrogens is None: new.calc_implicit(n)` -/
 def calcLoop : List Nat → Mol → Except PyErr Mol
   | [], m => .ok m
@@ -365,7 +369,7 @@ def calcLoop : List Nat → Mol → Except PyErr Mol
       else
         match Valence.calcImplicitMol m n with
         | none => .error (.keyError n)
-        | some h => calcLoop ns (Valence.setH m n h)
+        | some h => calcLoop ns (setH m n h)
 
 /-- `max(satoms)` -/
 def maxKey : List Nat → Except PyErr Nat
